@@ -15,7 +15,7 @@ from .. import docgen
 
 NAMES = ["a", "b", "c", "d", "zz"]
 CHAINS = ["", "p", "q", "nochain"]
-ALTS = [[], ["p"], ["q"], ["p", "q"], ["q", "p"], ["p", "p"]]
+ALTS = [[], ["p"], ["q"], ["p", "q"], ["q", "p"], ["p", "p"], [""], ["", "p"], ["q", "", "q"]]
 
 
 # =========================================================================== (a) bare Ruler
@@ -40,15 +40,23 @@ def gen_ruler(rng: random.Random) -> dict:
     registered: list[str] = []
     ops: list = []
     fid = 0
+    # the same function object may be registered under several (unique) names: plugins do share helpers
+    share = (not allow_dup) and rng.random() < 0.3
+
+    def next_fid():
+        nonlocal fid
+        if share and fid > 0 and rng.random() < 0.45:
+            return rng.randrange(fid)          # an already registered function again
+        fid += 1
+        return fid - 1
     # start: a few pushes
     for _ in range(rng.randint(1, 4)):
         cand = [x for x in NAMES[:4] if allow_dup or x not in registered]
         if not cand:
             break
         nm = rng.choice(cand)
-        ops.append(["push", nm, fid, rng.choice(ALTS + [None])])
+        ops.append(["push", nm, next_fid(), rng.choice(ALTS + [None])])
         registered.append(nm)
-        fid += 1
     while len(ops) < n:
         r = rng.random()
         if r < p_get:
@@ -59,23 +67,21 @@ def gen_ruler(rng: random.Random) -> dict:
             ref = rng.choice(registered) if (registered and rng.random() > p_unknown * 0.6) else rng.choice(["zz", "nope"])
             alt = rng.choice(ALTS + [None, None])
             if kind == "at":
-                ops.append(["at", ref, fid, alt])
-                fid += 1
+                ops.append(["at", ref, next_fid(), alt])
             elif cand:
                 nm = rng.choice(cand)
                 if kind == "push":
-                    ops.append(["push", nm, fid, alt])
+                    ops.append(["push", nm, next_fid(), alt])
                     registered.append(nm)
                 else:
-                    ops.append([kind, ref, nm, fid, alt])
+                    ops.append([kind, ref, nm, next_fid(), alt])
                     if ref in registered:
                         registered.append(nm)
-                fid += 1
         else:
             kind = rng.choice(["enable", "disable", "enableOnly", "enable", "disable"])
             names, form = _gen_names(rng, registered, p_unknown)
             ops.append([kind, names, rng.random() < 0.3, form])
-    return {"kind": "ruler", "ops": ops}
+    return {"kind": "ruler", "ops": ops, "shared_fns": share}
 
 
 class _Model:
@@ -150,6 +156,8 @@ def run_ruler(rec: dict, res: RunResult) -> None:
     def fid_of(f):
         return getattr(f, "fid", None)
 
+    shared = bool(rec.get("shared_fns"))
+
     def coherence(chain: str, k: int):
         nonlocal compiled, ever_compiled
         try:
@@ -163,23 +171,32 @@ def run_ruler(rec: dict, res: RunResult) -> None:
         reported = ruler.get_active_rules()
         allr = ruler.get_all_rules()
         main_ids = [fid_of(f) for f in main]
-        if None in main_ids or any(i not in fn_name for i in main_ids):
+        if None in main_ids or any(i not in fns for i in main_ids):
             res.fail("COHERENCE", f"op {k}: getRules('') returned a function that was never registered", last_mut)
             return
-        main_names = [fn_name[i] for i in main_ids]
-        res.events.append([k, "get", chain, main_names, [fid_of(f) for f in applied]])
-        if main_names != reported:
-            res.fail("COHERENCE", f"op {k}: applied main chain {main_names} != reported active {reported} "
-                                  f"(after {last_mut})", last_mut)
-            return
-        if len(set(main_ids)) != len(main_ids):
-            res.fail("COHERENCE", f"op {k}: a function occurs twice in the applied chain: {main_ids}", last_mut)
-            return
+        app_ids = [fid_of(f) for f in applied]
+        res.events.append([k, "get", chain, main_ids, app_ids])
+        on_recs = [r for r in model.recs if r["on"]]
         if not dup_mode:
-            exp_ids = [r["fid"] for r in model.recs if r["on"]]
+            # names are unique: the model knows exactly which function (object) stands where
+            exp_ids = [r["fid"] for r in on_recs]
             if main_ids != exp_ids:
-                res.fail("COHERENCE", f"op {k}: applied functions {main_ids} are not the functions last registered for "
-                                      f"the active rules {exp_ids} (names {reported}; after {last_mut})", last_mut)
+                res.fail("COHERENCE", f"op {k}: applied functions {main_ids} are not the functions registered for the "
+                                      f"active rules {[r['name'] for r in on_recs]} = {exp_ids} (reported active "
+                                      f"{reported}; after {last_mut})", last_mut)
+                return
+            if [r["name"] for r in on_recs] != reported:
+                res.fail("COHERENCE", f"op {k}: applied main chain {[r['name'] for r in on_recs]} != reported active "
+                                      f"{reported} (after {last_mut})", last_mut)
+                return
+        else:
+            main_names = [fn_name[i] for i in main_ids]
+            if main_names != reported:
+                res.fail("COHERENCE", f"op {k}: applied main chain {main_names} != reported active {reported} "
+                                      f"(after {last_mut})", last_mut)
+                return
+            if len(set(main_ids)) != len(main_ids):
+                res.fail("COHERENCE", f"op {k}: a function occurs twice in the applied chain: {main_ids}", last_mut)
                 return
         # reported active is a sub-sequence of all rules
         it = iter(allr)
@@ -188,29 +205,27 @@ def run_ruler(rec: dict, res: RunResult) -> None:
             return
         if chain == "":
             return
-        app_ids = [fid_of(f) for f in applied]
         if chain == "nochain":
             if app_ids:
                 res.fail("CHAIN_MEMBERSHIP", f"op {k}: unknown chain returned {app_ids}", last_mut)
             return
-        # expected: sub-list of the main chain whose registration declared `chain`
+        # expected: the active rules, in order, whose registration declared `chain` (once each, however often named)
         ok = False
         for pick in (0, 1):
-            exp = []
-            for i in main_ids:
-                cands = fn_alt[i]
-                alt = cands[min(pick, len(cands) - 1)]
-                if chain in alt:
-                    exp.append(i)
+            if not dup_mode:
+                exp = [r["fid"] for r in on_recs if chain in r["alts"][min(pick, len(r["alts"]) - 1)]]
+            else:
+                exp = [i for i in main_ids if chain in fn_alt[i][min(pick, len(fn_alt[i]) - 1)]]
             if exp == app_ids:
                 ok = True
                 if pick == 1:
                     res.count("at_none_kept_old_alt")
                 break
         if not ok:
+            alts = [r["alts"] for r in on_recs] if not dup_mode else [fn_alt[i] for i in main_ids]
             res.fail("CHAIN_MEMBERSHIP",
                      f"op {k}: getRules({chain!r}) = {app_ids}, expected the members of the main chain "
-                     f"{main_ids} that declared the chain (alts {[fn_alt[i] for i in main_ids]})", last_mut)
+                     f"{main_ids} that declared the chain (alts {alts})", last_mut)
 
     for k, op in enumerate(rec["ops"]):
         kind = op[0]
@@ -228,7 +243,7 @@ def run_ruler(rec: dict, res: RunResult) -> None:
         try:
             if kind == "push":
                 _, nm, fid, alt = op
-                fns[fid] = _mk_fn(fid)
+                fns.setdefault(fid, _mk_fn(fid))
                 fn_name[fid] = nm
                 fn_alt[fid] = [list(alt or [])]
                 if alt is None:
@@ -237,14 +252,14 @@ def run_ruler(rec: dict, res: RunResult) -> None:
                     ruler.push(nm, fns[fid], {"alt": list(alt)})
             elif kind in ("before", "after"):
                 _, ref, nm, fid, alt = op
-                fns[fid] = _mk_fn(fid)
+                fns.setdefault(fid, _mk_fn(fid))
                 fn_name[fid] = nm
                 fn_alt[fid] = [list(alt or [])]
                 args = (ref, nm, fns[fid]) + (() if alt is None else ({"alt": list(alt)},))
                 getattr(ruler, kind)(*args)
             elif kind == "at":
                 _, ref, fid, alt = op
-                fns[fid] = _mk_fn(fid)
+                fns.setdefault(fid, _mk_fn(fid))
                 fn_name[fid] = ref
                 i = model.find(ref)
                 old_alt = model.recs[i]["alt"] if (i >= 0 and not dup_mode) else None
@@ -286,14 +301,15 @@ def run_ruler(rec: dict, res: RunResult) -> None:
         m_before = copy.deepcopy(model.recs)
         exp_raise = False
         if kind == "push":
-            model.recs.append({"name": op[1], "on": True, "alt": list(op[3] or []), "fid": op[2]})
+            model.recs.append({"name": op[1], "on": True, "alt": list(op[3] or []), "fid": op[2],
+                               "alts": [list(op[3] or [])]})
         elif kind in ("before", "after"):
             i = model.find(op[1])
             if i < 0:
                 exp_raise = True
             else:
                 model.recs.insert(i + (kind == "after"), {"name": op[2], "on": True, "alt": list(op[4] or []),
-                                                          "fid": op[3]})
+                                                          "fid": op[3], "alts": [list(op[4] or [])]})
         elif kind == "at":
             i = model.find(op[1])
             if i < 0:
@@ -301,8 +317,13 @@ def run_ruler(rec: dict, res: RunResult) -> None:
             else:
                 if op[3] is not None and list(op[3]) != model.recs[i]["alt"]:
                     res.count("at_changed_alt")
+                old = list(model.recs[i]["alt"])
                 model.recs[i]["alt"] = list(op[3] or [])
                 model.recs[i]["fid"] = op[2]
+                # options omitted: an empty alt or the old one kept are both accepted
+                model.recs[i]["alts"] = [list(op[3] or [])] + ([old] if (op[3] is None and old) else [])
+                if shared and fid_of(fns[op[2]]) is not None:
+                    res.count("same_function_registered_under_two_names")
         else:
             found, exp_raise = model.set_many(op[1], kind != "disable", op[2], only=(kind == "enableOnly"))
             if not exp_raise and ret is not None and set(ret) != set(found):
@@ -459,7 +480,10 @@ def _do_replace(md, op, log: set):
     inner = cur.inner if cur is not None else None
     declared = list(cur.alt_decl) if cur is not None else []
     new_alt = declared if (alt is None or alt == "same") else list(alt)
-    w = _wrap(inner, which, name, log, tag)
+    if tag == "=same-fn" and cur is not None:
+        w = cur          # the SAME function object again, only the chain membership changes
+    else:
+        w = _wrap(inner, which, name, log, tag)
     w.alt_decl = new_alt
     if which == "block":
         r.at(name, w, {"alt": list(new_alt)})
@@ -543,6 +567,8 @@ def gen_facade(rng: random.Random) -> dict:
             alt = None
             if which == "block":
                 alt = rng.choice(["same", "same", rng.sample(BLOCK_ALT, rng.randint(0, 3))])
+                if alt != "same" and rng.random() < 0.5:
+                    return ["replace", which, name, "=same-fn", alt]
             return ["replace", which, name, f"#v{pid}", alt]
         if r < 0.90:
             if rng.random() < 0.35:
